@@ -146,4 +146,17 @@ TEXT["C05"] = {
     "note": _TB + "Partial: one KNOWN FINDING (index-at-end stale tail, F-C05-K1) is reported as KNOWN-FINDING, not repaired (repair needs a truncating store operation). Concurrent partial writers are out of scope of the model.",
     "technique": "Lean 4 proofs over a model of the sharding/default partial encoders (decode + well-formedness preservation, pinned defect witness) + raw-stored-value differential histories",
 }
+TEXT["C13"] = {
+    "level": "Machine-checked proof over a model of serde's reading/writing of MetadataV3, additional fields, ArrayMetadataV3 and GroupMetadataV3 on ordered JSON: what is written reads back as the same value "
+             "(names as given, configurations absent/empty/non-empty, must_understand:false, attributes in order, dimension names, additional fields with their key order) — at the JSON level and through the stored "
+             "bytes (with the JSON print/parse inversion of C14) — parsing yields a well-formed document, so re-serialising a parsed document is a fixed point; every parsed field is the value under its key and "
+             "every other key is an additional field; a document opens only if no additional field must be understood and shape, chunk grid and dimension names agree in rank. Hierarchy: over the ordered-map "
+             "store model of C08, Group::children returns exactly the child prefixes with stored metadata, with their kinds; the recursive listing and Node::open return exactly the prefixes reachable through "
+             "groups; node existence is the presence of a metadata key; erasing a prefix removes exactly the nodes beneath. On the real code ~1200 structured array documents (all field orders, name forms, "
+             "unknown codecs/fields, rank disagreements, missing/ill-typed fields, unicode) go through serde twice and through Array::open / metadata() / store_metadata / re-open / store again plus a panic-guarded "
+             "set of chunk operations; V2 array/group documents through the same store-reopen cycle; random create/erase histories of V2/V3 groups and arrays on memory, filesystem, object_store and opendal "
+             "stores are compared with the model for children/child_paths/child_groups/child_arrays/Node::open/node_exists.",
+    "note": _TB + "Partial: whether a given codec / data type / chunk grid configuration is usable is decided by the plugins, not modelled (the generator states which documents are built from valid parts); stored codec configurations are re-created by the codecs and are compared by name only; V2 documents are judged on the store/re-open fixed point, not modelled; repeated keys of typed fields (rejected by serde) are flagged by the generator; absence of panics after open is explored, not proved. Node names starting with `__` are hidden by the code only at the root (modelled as written).",
+    "technique": "Lean 4 proofs of metadata document round trip / fixed point and of hierarchy discovery exactness + structured differential documents and random hierarchy histories on 4 store kinds",
+}
 NOT_YET = {}
